@@ -91,13 +91,13 @@ def cbytes(b):
 def clist(items, ty=None):
     items = list(items)
     if not items:
-        return "(@nil %s)" % ty if ty else "[]"
+        return "(@nil (%s))" % ty if ty else "[]"
     return "[" + "; ".join(items) + "]"
 
 
 def copt(x, ty=None):
     if x is None:
-        return "(@None %s)" % ty if ty else "None"
+        return "(@None (%s))" % ty if ty else "None"
     return "(Some %s)" % x
 
 
